@@ -163,51 +163,7 @@ func runC06(c *Ctx) {
 	c.Floor("C06.P1-must-publish", 6)
 
 	// ---- P2 newest wins ---------------------------------------------------------------
-	for _, w := range writers {
-		instrs(w.SSA, func(in ssa.Instruction) {
-			st, ok := in.(*ssa.Store)
-			if !ok {
-				return
-			}
-			a := c.E(st.Addr)
-			if a.Op != "field" || fieldOwner(a) != "cacheInfo" || a.Name != "provider" {
-				return
-			}
-			rec := a.Args[0]
-			if al, ok := rec.V.(*ssa.Alloc); ok && al.Block() == st.Block() {
-				return // field initialisation of a literal being built: a new record, nothing is replaced
-			}
-			key := w.Name + " › replace record"
-			afterPat := Call("time.Time).After", Bind("new"), Field("lastUpdate", Is(rec)))
-			b, ok := c.Guarded(in, afterPat, true)
-			if !ok {
-				c.Bad("C06.P2-newest-wins", key, st.Pos(), "stored record is replaced without the guard fetchedTime.After(record.lastUpdate)")
-				return
-			}
-			c.OK("C06.P2-newest-wins", key, st.Pos(), "replacement dominated by the true edge of new.After(record.lastUpdate)")
-			// zero time normalised: the compared time is a phi of the parsed time and a constant date, selected by IsZero
-			_, norm := Match(Op("phi", "", Any()), b["new"])
-			hasDate := b["new"].Contains(func(y *X) bool { return y.Op == "call" && nameMatches(y.Name, "time.Date") })
-			hasParse := b["new"].Contains(func(y *X) bool { return y.Op == "call" && nameMatches(y.Name, "time.Parse") })
-			c.Check(norm && hasDate && hasParse, "C06.P2-newest-wins", w.Name+" › zero time normalised", st.Pos(),
-				"compared time is the parsed advertisement time with the zero value replaced by a fixed non-zero date", "compared time is not normalised: a record without timestamp compares as oldest forever or replaces newer ones")
-			// lastUpdate stored together with provider (same block), with the compared value
-			together := false
-			for _, o := range st.Block().Instrs {
-				if s2, ok := o.(*ssa.Store); ok {
-					if a2 := c.E(s2.Addr); a2.Op == "field" && a2.Name == "lastUpdate" && Same(a2.Args[0], rec) && Same(c.E(s2.Val), b["new"]) {
-						together = true
-					}
-				}
-			}
-			c.Check(together, "C06.P2-newest-wins", w.Name+" › time stored with record", st.Pos(),
-				"record and its advertisement time are stored in the same step", "record replaced without storing the time it was compared by")
-			// the record stored is the fetched one the time was parsed from
-			src := b["new"].Find(func(y *X) bool { return y.Op == "field" && y.Name == "LastAdvertisementTime" })
-			c.Check(src != nil && Same(src.Args[0], c.E(st.Val)), "C06.P2-newest-wins", w.Name+" › record matches time", st.Pos(),
-				"the record stored is the one whose advertisement time was compared", "the record stored is not the one whose time was compared")
-		})
-	}
+	pcacheNewestWins(c, "C06.P2-newest-wins")
 	c.Floor("C06.P2-newest-wins", 8)
 	// update stamp set with the record in the refresh path
 	for _, w := range writers {
@@ -278,6 +234,39 @@ func runC06(c *Ctx) {
 		})
 	}
 	c.Floor("C06.P3-ttl", 3)
+	// the time-to-live in force is the one configured: config.ttl is written by the option that sets it (with its
+	// argument, as given) and by the default — nothing adjusts it afterwards — and the cache takes its ttl from it
+	nTTL := 0
+	for _, f := range c.Funcs(pcachePkg) {
+		instrsDeep(f.SSA, func(g *ssa.Function, in ssa.Instruction) {
+			st, ok := in.(*ssa.Store)
+			if !ok {
+				return
+			}
+			a := c.E(st.Addr)
+			if a.Op != "field" || a.Name != "ttl" || fieldOwner(a) != "config" {
+				return
+			}
+			nTTL++
+			v := strip(c.E(st.Val))
+			okV := false
+			switch {
+			case g.Parent() != nil && strip(a.Args[0]).Op == "param":
+				// an option closure: its constructor's argument, as is
+				okV = v.Op == "param"
+				for _, l := range c.Leaves(c.E(st.Val), st) {
+					if strip(l).Op != "param" {
+						okV = false
+					}
+				}
+			case a.Args[0].Op == "complit" || strip(a.Args[0]).Op == "alloc" && st.Block() == g.Blocks[0]:
+				// the default, in the literal that creates the config
+				okV = v.Op == "const" || v.Op == "global"
+			}
+			c.Check(okV, "C06.P3-ttl-as-configured", c.short(topFunc(g).String())+" › config.ttl", st.Pos(), "ttl set to the option's argument (or the default at creation)", "the configured time-to-live is adjusted ("+abbreviate(c.E(st.Val).String())+"): providers stay listed (or are dropped) at another time than the one the user configured")
+		})
+	}
+	c.Floor("C06.P3-ttl-as-configured", 2)
 
 	// ---- P4 negative cache ------------------------------------------------------------------
 	for _, w := range writers {
@@ -457,9 +446,18 @@ func pcacheMergePrecedence(c *Ctx, rule string) {
 			oldIn := old.V.(ssa.Instruction)
 			_, g := c.Guarded(oldIn, Extract("1", Is(upd)), false)
 			c.Check(g, rule, key, mu.Pos(), "old main map consulted only on the miss edge of the pending-updates lookup", "old main map takes precedence over pending updates: a rebuilt snapshot reverts records readers already saw")
+			// every provider the writer tracks is carried into the rebuilt map, whatever its record is: a nil record is
+			// the remembered "absent"/"expired" answer, and dropping it makes the next lookup query the sources again
+			filtered := false
+			for _, fct := range c.FactsAt(mu.Block()) {
+				if fct.Cond.Contains(func(y *X) bool { return y.V != nil && y.V == v.V }) {
+					filtered = true
+				}
+			}
+			c.Check(!filtered, rule, key+" › carries every tracked provider", mu.Pos(), "the rebuilt main map receives an entry for every key of the write map, unconditionally", "entries are filtered by their value when the main map is rebuilt: negative (nil) entries vanish from the snapshot although the writer still tracks them")
 		})
 	}
-	c.Floor(rule, 1)
+	c.Floor(rule, 2)
 }
 
 // pcacheLoadUnderToken: in writer functions the snapshot is loaded while the write token is held.
@@ -566,4 +564,57 @@ func isFreshMap(c *Ctx, x *X) bool {
 		}
 	}
 	return true
+}
+
+// pcacheNewestWins: a stored record is replaced only by a strictly newer one,
+// and the time it is compared by is stored with it (shared by C06 and C07:
+// it is also what keeps a reader from being served an older record than one
+// it was given before).
+func pcacheNewestWins(c *Ctx, rule string) {
+	writers := pcacheWriters(c)
+	for _, w := range writers {
+		instrs(w.SSA, func(in ssa.Instruction) {
+			st, ok := in.(*ssa.Store)
+			if !ok {
+				return
+			}
+			a := c.E(st.Addr)
+			if a.Op != "field" || fieldOwner(a) != "cacheInfo" || a.Name != "provider" {
+				return
+			}
+			rec := a.Args[0]
+			if al, ok := rec.V.(*ssa.Alloc); ok && al.Block() == st.Block() {
+				return // field initialisation of a literal being built: a new record, nothing is replaced
+			}
+			key := w.Name + " › replace record"
+			afterPat := Call("time.Time).After", Bind("new"), Field("lastUpdate", Is(rec)))
+			b, ok := c.Guarded(in, afterPat, true)
+			if !ok {
+				c.Bad(rule, key, st.Pos(), "stored record is replaced without the guard fetchedTime.After(record.lastUpdate)")
+				return
+			}
+			c.OK(rule, key, st.Pos(), "replacement dominated by the true edge of new.After(record.lastUpdate)")
+			// zero time normalised: the compared time is a phi of the parsed time and a constant date, selected by IsZero
+			_, norm := Match(Op("phi", "", Any()), b["new"])
+			hasDate := b["new"].Contains(func(y *X) bool { return y.Op == "call" && nameMatches(y.Name, "time.Date") })
+			hasParse := b["new"].Contains(func(y *X) bool { return y.Op == "call" && nameMatches(y.Name, "time.Parse") })
+			c.Check(norm && hasDate && hasParse, rule, w.Name+" › zero time normalised", st.Pos(),
+				"compared time is the parsed advertisement time with the zero value replaced by a fixed non-zero date", "compared time is not normalised: a record without timestamp compares as oldest forever or replaces newer ones")
+			// lastUpdate stored together with provider (same block), with the compared value
+			together := false
+			for _, o := range st.Block().Instrs {
+				if s2, ok := o.(*ssa.Store); ok {
+					if a2 := c.E(s2.Addr); a2.Op == "field" && a2.Name == "lastUpdate" && Same(a2.Args[0], rec) && Same(c.E(s2.Val), b["new"]) {
+						together = true
+					}
+				}
+			}
+			c.Check(together, rule, w.Name+" › time stored with record", st.Pos(),
+				"record and its advertisement time are stored in the same step", "record replaced without storing the time it was compared by")
+			// the record stored is the fetched one the time was parsed from
+			src := b["new"].Find(func(y *X) bool { return y.Op == "field" && y.Name == "LastAdvertisementTime" })
+			c.Check(src != nil && Same(src.Args[0], c.E(st.Val)), rule, w.Name+" › record matches time", st.Pos(),
+				"the record stored is the one whose advertisement time was compared", "the record stored is not the one whose time was compared")
+		})
+	}
 }
